@@ -79,9 +79,11 @@ fn c14_decoder_short_reads_bounded() {
     let reader = SlowReader { data: [q[0], q[1], q[2], q[3], 0, 0, 0, 0], len: 4, pos: 0, step };
     let mut dec = Base64Decoder::new(reader);
     let mut out = [0u8; 3];
-    match dec.read(&mut out) {
-        Ok(n) => assert!(n == 3 && out[0] == a && out[1] == b && out[2] == c),
+    let res = dec.read(&mut out);
+    match &res {
+        Ok(n) => assert!(*n == 3 && out[0] == a && out[1] == b && out[2] == c),
         Err(_) => assert!(false, "valid text reported as an error"),
     }
+    std::mem::forget(res); // keep CBMC out of the drop glue of io::Error
     kani::cover!(step == 1);
 }
